@@ -471,10 +471,8 @@ func (h *File) Write(b []byte) (int, error) {
 		f.stream(h.stdio, buf, step, task)
 		return len(buf), nil
 	}
-	if h.closed { // closed while we were copying
-		f.Ops["write_on_closed"]++
-		return 0, &PathError{Op: "write", Path: h.name, Err: ErrClosed}
-	}
+	// A Close that arrives while this write is in flight does not fail it: like
+	// os.File, the descriptor is only released once in-flight I/O has finished.
 	if h.flag&(O_WRONLY|O_RDWR) == 0 {
 		return 0, &PathError{Op: "write", Path: h.name, Err: syscall.EBADF}
 	}
